@@ -40,6 +40,8 @@ import (
 	wal "github.com/hashicorp/raft-wal"
 
 	"verif/harness/valpool"
+
+	"go.etcd.io/bbolt"
 )
 
 type step struct {
@@ -59,6 +61,7 @@ type scenario struct {
 	SegSize int    `json:"segSize"`
 	Codec   string `json:"codec"` // ident | bin
 	Steps   []step `json:"steps"`
+	LeftTmp string `json:"leftTmp,omitempty"` // plant a leftover wal-meta.db.tmp before the first Open: valid | garbage
 }
 
 type runner struct {
@@ -189,12 +192,42 @@ func (r *runner) plantOrphan() {
 	})
 }
 
+// plantTmp leaves a wal-meta.db.tmp behind, as an initialisation that was killed before its rename would:
+// "valid" = a complete bolt database holding the two empty buckets, "garbage" = arbitrary bytes.
+func (r *runner) plantTmp(kind string) {
+	_ = r.call("harness", func() error {
+		name := filepath.Join(r.dir, "wal-meta.db.tmp")
+		if kind != "valid" {
+			return os.WriteFile(name, []byte("not a database, just what a killed process left behind"), 0644)
+		}
+		bb, err := bbolt.Open(name, 0644, nil)
+		if err != nil {
+			return err
+		}
+		err = bb.Update(func(tx *bbolt.Tx) error {
+			for _, b := range []string{"wal-meta", "stable"} {
+				if _, err := tx.CreateBucket([]byte(b)); err != nil {
+					return err
+				}
+			}
+			return nil
+		})
+		if cerr := bb.Close(); err == nil {
+			err = cerr
+		}
+		return err
+	})
+}
+
 func (r *runner) run() {
 	defer func() {
 		if p := recover(); p != nil {
 			r.notes = append(r.notes, fmt.Sprint("panic: ", p))
 		}
 	}()
+	if r.sc.LeftTmp != "" {
+		r.plantTmp(r.sc.LeftTmp)
+	}
 	if r.open() != nil {
 		return
 	}
